@@ -49,6 +49,8 @@ type sval struct {
 	tok   *stoken
 	pos   *spos
 	bld   ssa.Value
+	alias ssa.Value // kind "alias": stands for this value of the calling function
+	tuple []sval    // kind "tuple": the results of an inlined helper with several results
 }
 
 type stoken struct {
@@ -81,6 +83,16 @@ type sstate struct {
 	below    bool // an Unread happened with nothing consumed (moved before the entry position)
 	trace    []string
 	visits   map[*ssa.BasicBlock]int
+	frames   []*sframe // inlined helper calls in progress on this path
+}
+
+// sframe: where to continue in the caller when an inlined helper returns.
+type sframe struct {
+	call        *ssa.Call
+	retBlock    *ssa.BasicBlock
+	retIdx      int
+	retPred     *ssa.BasicBlock
+	savedVisits map[*ssa.BasicBlock]int
 }
 
 func (s *sstate) clone() *sstate {
@@ -108,6 +120,7 @@ func (s *sstate) clone() *sstate {
 	for k, v := range s.visits {
 		n.visits[k] = v
 	}
+	n.frames = append([]*sframe{}, s.frames...)
 	return n
 }
 
@@ -240,12 +253,39 @@ func (c *Ctx) runScanExec(fn *ssa.Function) *scanExec {
 				n++
 				x.siteIdx[in] = n
 			}
-			if ci, ok := in.(ssa.CallInstruction); ok && x.isDelegation(ci.Common()) {
+			if ci, ok := in.(ssa.CallInstruction); ok && x.isDelegation(ci.Common()) && x.inlineable(ci.Common()) == nil {
 				n++
 				x.siteIdx[in] = n
 			}
 		}
 	}
+	// delegation sites inside helpers that will be inlined (block order, up to three levels)
+	var indexHelpers func(f *ssa.Function, depth int, seen map[*ssa.Function]bool)
+	indexHelpers = func(f *ssa.Function, depth int, seen map[*ssa.Function]bool) {
+		for _, b := range f.Blocks {
+			for _, in := range b.Instrs {
+				ci, ok := in.(ssa.CallInstruction)
+				if !ok {
+					continue
+				}
+				if g := x.inlineable(ci.Common()); g != nil && depth > 0 && !seen[g] {
+					seen[g] = true
+					for _, gb := range g.Blocks {
+						for _, gin := range gb.Instrs {
+							if gci, ok := gin.(ssa.CallInstruction); ok && x.isDelegation(gci.Common()) && x.inlineable(gci.Common()) == nil {
+								if _, has := x.siteIdx[gin]; !has {
+									n++
+									x.siteIdx[gin] = n
+								}
+							}
+						}
+					}
+					indexHelpers(g, depth-1, seen)
+				}
+			}
+		}
+	}
+	indexHelpers(fn, 3, map[*ssa.Function]bool{})
 	st := &sstate{facts: map[int]*charFacts{}, builders: map[ssa.Value][]sitem{}, env: map[ssa.Value]sval{}, visits: map[*ssa.BasicBlock]int{}}
 	x.walk(fn.Blocks[0], nil, st)
 	return x
@@ -284,12 +324,18 @@ func (x *scanExec) walk(b *ssa.BasicBlock, pred *ssa.BasicBlock, st *sstate) {
 	if st.visits[b] > 3 {
 		return // loop unrolled enough on this path
 	}
-	for _, in := range b.Instrs {
+	x.walkFrom(b, 0, pred, st)
+}
+
+// walkFrom continues the abstract execution of block b at instruction index idx.
+func (x *scanExec) walkFrom(b *ssa.BasicBlock, idx int, pred *ssa.BasicBlock, st *sstate) {
+	for i := idx; i < len(b.Instrs); i++ {
+		in := b.Instrs[i]
 		switch t := in.(type) {
 		case *ssa.Phi:
-			for i, p := range b.Preds {
+			for j, p := range b.Preds {
 				if p == pred {
-					st.env[t] = x.eval(t.Edges[i], st)
+					st.env[t] = x.eval(t.Edges[j], st)
 				}
 			}
 		case *ssa.If:
@@ -299,6 +345,36 @@ func (x *scanExec) walk(b *ssa.BasicBlock, pred *ssa.BasicBlock, st *sstate) {
 			x.walk(b.Succs[0], b, st)
 			return
 		case *ssa.Return:
+			if n := len(st.frames); n > 0 {
+				// return from an inlined helper: bind the result and continue in the caller
+				fr := st.frames[n-1]
+				st.frames = st.frames[:n-1]
+				switch len(t.Results) {
+				case 0:
+					delete(st.env, fr.call)
+				case 1:
+					rv := x.eval(t.Results[0], st)
+					if rv.kind == "bool" && !rv.known && rv.alias == nil {
+						rv.alias = t.Results[0]
+					}
+					st.env[fr.call] = rv
+				default:
+					tv := sval{kind: "tuple"}
+					for _, r := range t.Results {
+						rv := x.eval(r, st)
+						if rv.kind == "bool" && !rv.known && rv.alias == nil {
+							rv.alias = r
+						}
+						tv.tuple = append(tv.tuple, rv)
+					}
+					st.env[fr.call] = tv
+				}
+				for k, v := range fr.savedVisits {
+					st.visits[k] = v
+				}
+				x.walkFrom(fr.retBlock, fr.retIdx, fr.retPred, st)
+				return
+			}
 			x.paths++
 			x.checkReturn(t, st)
 			return
@@ -306,11 +382,86 @@ func (x *scanExec) walk(b *ssa.BasicBlock, pred *ssa.BasicBlock, st *sstate) {
 			x.paths++
 			return
 		default:
+			if call, ok := in.(*ssa.Call); ok {
+				if g := x.inlineableAt(call.Common(), st); g != nil && len(st.frames) < 3 {
+					fr := &sframe{call: call, retBlock: b, retIdx: i + 1, retPred: pred, savedVisits: map[*ssa.BasicBlock]int{}}
+					for _, gb := range g.Blocks {
+						fr.savedVisits[gb] = st.visits[gb]
+						st.visits[gb] = 0
+					}
+					for k, prm := range g.Params {
+						if k < len(call.Call.Args) {
+							av := x.eval(call.Call.Args[k], st)
+							if av.kind == "" || av.kind == "unknown" {
+								av = sval{kind: "alias", alias: x.resolve(call.Call.Args[k], st)}
+							}
+							st.env[prm] = av
+						}
+					}
+					st.frames = append(st.frames, fr)
+					st.trace = append(st.trace, "call:"+g.Name())
+					x.walk(g.Blocks[0], nil, st)
+					return
+				}
+			}
 			if !x.step(in, st) {
 				return
 			}
 		}
 	}
+}
+
+// inlineable: a statically bound module function with a body that is handed the scanner and is not
+// itself a tokenizer state's NextToken (that is a delegation to another state, judged as such).
+func (x *scanExec) inlineable(cc *ssa.CallCommon) *ssa.Function {
+	g := cc.StaticCallee()
+	if g == nil || !x.c.InModule(g) || g.Blocks == nil || g == x.fn || g.Name() == "NextToken" {
+		return nil
+	}
+	for _, a := range cc.Args {
+		if x.isScannerValue(a) {
+			return g
+		}
+	}
+	return nil
+}
+
+// inlineableAt: inlineable, or a small statically bound module predicate/helper applied to a character
+// of the scanner (c.isWordChar(symbol)): its body decides facts about that character.
+func (x *scanExec) inlineableAt(cc *ssa.CallCommon, st *sstate) *ssa.Function {
+	if g := x.inlineable(cc); g != nil {
+		return g
+	}
+	g := cc.StaticCallee()
+	if g == nil || !x.c.InModule(g) || g.Blocks == nil || g == x.fn || g.Name() == "NextToken" || len(g.Blocks) > 30 {
+		return nil
+	}
+	if recvNamedFn(g) == "_TCharValidator" || recvNamedFn(g) == "CharReferenceMap" {
+		return nil // modelled directly
+	}
+	for _, fr := range st.frames {
+		if fr.call.Call.StaticCallee() == g {
+			return nil
+		}
+	}
+	for _, a := range cc.Args {
+		if x.eval(a, st).kind == "char" {
+			return g
+		}
+	}
+	return nil
+}
+
+// resolve follows parameter aliases (a *strings.Builder handed to a helper) to the caller's value.
+func (x *scanExec) resolve(v ssa.Value, st *sstate) ssa.Value {
+	for i := 0; i < 4; i++ {
+		sv, ok := st.env[v]
+		if !ok || sv.kind != "alias" || sv.alias == nil {
+			return v
+		}
+		v = sv.alias
+	}
+	return v
 }
 
 func (x *scanExec) branch(b *ssa.BasicBlock, ifi *ssa.If, st *sstate) {
@@ -338,6 +489,10 @@ func (x *scanExec) branch(b *ssa.BasicBlock, ifi *ssa.If, st *sstate) {
 
 // assume records the facts implied by cond == side; false if infeasible.
 func (x *scanExec) assume(cond ssa.Value, side bool, st *sstate) bool {
+	// the undetermined boolean result of an inlined helper stands for the expression it returned
+	if sv, ok := st.env[cond]; ok && sv.kind == "bool" && !sv.known && sv.alias != nil && sv.alias != cond {
+		return x.assume(sv.alias, side, st)
+	}
 	switch t := cond.(type) {
 	case *ssa.UnOp:
 		if t.Op == token.NOT {
@@ -469,6 +624,10 @@ func (x *scanExec) eval(v ssa.Value, st *sstate) sval {
 			}
 			return sval{kind: "str", items: items, known: true}
 		}
+	case *ssa.Extract:
+		if tv, ok := st.env[t.Tuple]; ok && tv.kind == "tuple" && t.Index < len(tv.tuple) {
+			return tv.tuple[t.Index]
+		}
 	case *ssa.UnOp:
 		if t.Op == token.NOT {
 			a := x.eval(t.X, st)
@@ -484,6 +643,21 @@ func (x *scanExec) eval(v ssa.Value, st *sstate) sval {
 				return sval{kind: "str", items: append(append([]sitem{}, l.items...), r.items...), known: l.known && r.known}
 			}
 			return sval{kind: "unknown"}
+		}
+		if (t.Op == token.ADD || t.Op == token.SUB) && l.kind == "builderlen" && r.kind == "int" && r.known {
+			if t.Op == token.SUB {
+				return sval{kind: "builderlen", bld: l.bld, n: l.n - r.n}
+			}
+			return sval{kind: "builderlen", bld: l.bld, n: l.n + r.n}
+		}
+		if t.Op == token.ADD && r.kind == "builderlen" && l.kind == "int" && l.known {
+			return sval{kind: "builderlen", bld: r.bld, n: r.n + l.n}
+		}
+		if (t.Op == token.ADD || t.Op == token.SUB) && l.kind == "int" && l.known && r.kind == "int" && r.known {
+			if t.Op == token.SUB {
+				return sval{kind: "int", n: l.n - r.n, known: true}
+			}
+			return sval{kind: "int", n: l.n + r.n, known: true}
 		}
 		if (t.Op == token.EQL || t.Op == token.NEQ) && l.kind == "char" && r.kind == "int" && r.known {
 			f := st.facts[l.ch]
@@ -619,7 +793,7 @@ func (x *scanExec) step(in ssa.Instruction, st *sstate) bool {
 				n = a.n
 			} else if a.kind == "builderlen" {
 				// Len() counts bytes: equals the number of characters only if all are ASCII
-				n = 0
+				n = a.n // constant added to the length
 				for _, it := range st.builders[a.bld] {
 					if it.kind == "const" && it.r < 0x80 {
 						n++
@@ -651,7 +825,7 @@ func (x *scanExec) step(in ssa.Instruction, st *sstate) bool {
 	f := calleeObj(cc)
 	// strings.Builder
 	if f != nil && f.Pkg() != nil && f.Pkg().Path() == "strings" && recvNamed(f) == "Builder" {
-		b := cc.Args[0]
+		b := x.resolve(cc.Args[0], st)
 		switch f.Name() {
 		case "WriteRune":
 			a := x.eval(cc.Args[1], st)
@@ -724,18 +898,6 @@ func (x *scanExec) step(in ssa.Instruction, st *sstate) bool {
 		st.trace = append(st.trace, "delegate")
 		st.moves++ // the delegate moved the scanner
 		return true
-	}
-	// helper taking the scanner and returning a string / nothing: inline
-	if g := cc.StaticCallee(); g != nil && x.c.InModule(g) && g.Blocks != nil {
-		takesScanner := false
-		for _, a := range cc.Args {
-			if x.isScannerValue(a) {
-				takesScanner = true
-			}
-		}
-		if takesScanner {
-			return x.inline(call, g, st)
-		}
 	}
 	return true
 }
